@@ -227,3 +227,162 @@ Theorem C09_final_guard_debug_only_refuted :
   grun true 40 [GOp (FFinalize 11 10 1000000); GOp (FSetTip 106)] stale_fork_tree = FAbort.
 Proof. exact final_guard_debug_only_refuted. Qed.
 Print Assumptions C09_final_guard_debug_only_refuted.
+
+(* ---- read sets of the contextual checks vs. the window finalization retains (Store/Transparent*.v).
+        Heights are Z, [m_previousKeystone] is what the generated getPreviousKeystoneHeight computes
+        (Score/KeystoneProofs.v gen_getPreviousKeystoneHeight).  An ATV in a block of height hc endorsing a block of
+        height he reads the height interval [second previous keystone of he .. hc] of the containing block's chain
+        (CheckPublicationData: endorsed, endorsed->pprev, getAncestor(first), getAncestor(second);
+        AddAltEndorsement: containing->getAncestor(he)); finalizeBlocks at tip height tipH retains the heights
+        >= max(root, max(root, tipH - maxReorg) - preserve). *)
+From Coq Require Import ZArith.
+From VB Require Import Score.KeystoneDefs Store.TransparentDefs Store.TransparentArith Store.TransparentProofs Store.TransparentExamples.
+
+(* the blocks the check names explicitly all lie in that interval *)
+Theorem C09_read_marks_in_read_set :
+  forall ki hc he h,
+  (0 < ki)%Z -> (1 <= he)%Z -> (he <= hc)%Z -> In h (atv_read_marks ki hc he) -> atv_reads ki hc he h.
+Proof. exact atv_read_marks_in_reads. Qed.
+Print Assumptions C09_read_marks_in_read_set.
+
+(* for every tip height, every containing block that is not outdated ([strict] = true: above the final block, the only
+   blocks whose payloads can still be executed; false: the final block included) and every ATV that satisfies the
+   settlement rule, every read that exists in the never-finalizing tree lies in the retained window, PROVIDED
+   preserve >= settle + 2*ki (+ 1 when the final block is included) *)
+Theorem C09_reads_within_window :
+  forall strict ki settle preserve,
+  (0 < ki)%Z -> (least_preserve strict ki settle <= preserve)%Z ->
+  forall rootH tipH maxReorg hc he h,
+  atv_situation strict settle rootH tipH maxReorg hc he ->
+  atv_reads ki hc he h -> (rootH <= h)%Z ->
+  (retained_low rootH tipH maxReorg preserve <= h)%Z.
+Proof. exact reads_within_window. Qed.
+Print Assumptions C09_reads_within_window.
+
+(* ... and that bound is the exact least one, for every keystone interval and settlement interval *)
+Theorem C09_reads_within_window_iff :
+  forall strict ki settle preserve,
+  (0 < ki)%Z -> (0 <= settle)%Z ->
+  (reads_in_window strict ki settle preserve <-> (settle + 2 * ki + (if strict then 0 else 1) <= preserve)%Z).
+Proof. exact reads_in_window_iff. Qed.
+Print Assumptions C09_reads_within_window_iff.
+
+(* the bound cannot be lowered by one: heights that satisfy the situation while the second previous keystone of the
+   endorsed block exists in the never-finalizing tree but lies below the new root *)
+Theorem C09_least_bound_tight :
+  forall strict ki settle,
+  (0 < ki)%Z -> (0 <= settle)%Z ->
+  exists rootH tipH maxReorg hc he,
+    window_miss strict ki settle (least_preserve strict ki settle - 1) rootH tipH maxReorg hc he.
+Proof. exact least_bound_tight. Qed.
+Print Assumptions C09_least_bound_tight.
+
+(* the same on the tree model: ki 3, settle 4, block 13 final; an ATV in block 14 endorsing block 10 is accepted by the
+   never-finalizing tree, rejected (bad-sf-context) after finalization with preserve = 9, accepted with preserve = 10 *)
+Theorem C09_least_bound_tight_tree :
+  let t := chain20 in
+  let ctx := f_honest_ctx 40 t 3 10 in
+  ctx = (10, Some 6, Some 3) /\
+  highest_final (finalizeBlocks 40 t 7 9 1000000) = Some 13 /\
+  root_of (finalizeBlocks 40 t 7 9 1000000) = 4 /\ root_of (finalizeBlocks 40 t 7 10 1000000) = 3 /\
+  f_check_atv 40 t 3 4 14 10 ctx = AOk /\
+  f_check_atv 40 (finalizeBlocks 40 t 7 9 1000000) 3 4 14 10 ctx = ASfContext /\
+  f_check_atv 40 (finalizeBlocks 40 t 7 10 1000000) 3 4 14 10 ctx = AOk.
+Proof. exact least_bound_tight_tree. Qed.
+Print Assumptions C09_least_bound_tight_tree.
+
+(* known finding ctx-keystone-dealloc on the model: with preserve = settle (the library's default and the only relation
+   its parameters assert; here ki 3, settle = preserve = 4, maxReorg 8 as in corpus/C09/F12_ctx_keystone_dealloc.json)
+   at tip 20 the fork block 113 on the final block 12 is not outdated, the ATV endorsing block 9 with the honest
+   context (keystones 6 and 3) is accepted by the never-finalizing tree and rejected with bad-sf-context by the
+   finalized one, which has deallocated both keystones (new root 8) *)
+Theorem C09_preserve_equals_settle_refuted :
+  (let t := chain20 in
+   let t' := finalizeBlocks 40 t 8 4 1000000 in
+   let ctx := f_honest_ctx 40 t 3 9 in
+   t_chain t' = [8;9;10;11;12;13;14;15;16;17;18;19;20] /\ highest_final t' = Some 12 /\
+   descends 40 t' 113 12 = true /\ outdated 40 40 t' 12 113 = false /\
+   ctx = (9, Some 6, Some 3) /\
+   prevks 9 3 0 = 6 /\ prevks 9 3 1 = 3 /\ flookup (t_blocks t') 6 = None /\ flookup (t_blocks t') 3 = None /\
+   f_check_atv 40 t 3 4 113 9 ctx = AOk /\
+   f_check_atv 40 t' 3 4 113 9 ctx = ASfContext /\
+   f_honest_ctx 40 t' 3 9 = (9, None, None) /\
+   f_check_atv 40 t 3 4 13 9 ctx = AOk /\ f_check_atv 40 t' 3 4 13 9 ctx = ASfContext) /\
+  (final_height 0 20 8 = 12 /\ retained_low 0 20 8 4 = 8 /\
+   atv_first_keystone 3 9 = 6 /\ atv_second_keystone 3 9 = 3 /\
+   window_miss true 3 4 4 0 20 8 13 9)%Z.
+Proof. exact (conj preserve_equals_settle_refuted_tree preserve_equals_settle_concrete). Qed.
+Print Assumptions C09_preserve_equals_settle_refuted.
+
+(* ... for EVERY keystone interval and settlement interval preserve = settle misses a keystone at some height *)
+Theorem C09_preserve_equals_settle_never_suffices :
+  forall strict ki settle,
+  (0 < ki)%Z -> (0 <= settle)%Z ->
+  (exists rootH tipH maxReorg hc he, window_miss strict ki settle settle rootH tipH maxReorg hc he) /\
+  ~ reads_in_window strict ki settle settle.
+Proof. exact preserve_equals_settle_misses. Qed.
+Print Assumptions C09_preserve_equals_settle_never_suffices.
+
+(* transparency of the ATV check as coded (CheckPublicationData + AddAltEndorsement over the finalization model's
+   tree): under preserve >= settle + 2*ki the verdict for every ATV context in every non-outdated containing block
+   above the final block ([strict] = false: the final block too, one more preserved block) is the same on the
+   finalized and on the never-finalized tree.  Built on C09_finalize_transparent_partial *)
+Theorem C09_finalize_transparent_atv_check :
+  forall fuel t idx preserve tips' fin newRoot,
+  wf_tree t -> chain_is_path t -> root_lowest t -> fuel_ok fuel t ->
+  (idx =? root_of t) = false ->
+  erase_tips fuel t (t_tips t) (lowest_dirty fuel t idx idx) = (tips', fin) ->
+  In fin (t_chain t) ->
+  chain_at t (N.max (height_of t (root_of t)) (height_of t fin - preserve)) = Some newRoot ->
+  forall (strict : bool) ki settle c e ctx,
+  0 < ki ->
+  settle + 2 * ki + (if strict then 0 else 1) <= preserve ->
+  anc t fin c ->
+  (if strict then height_of t fin < height_of t c else True) ->
+  anc t e c -> height_of t c - height_of t e <= settle ->
+  height_of t (root_of t) < height_of t e ->
+  height_of t (root_of t) <= prevks (height_of t e) ki 1 ->
+  f_check_atv fuel (finalizeBlockImpl fuel t idx preserve) ki settle c e ctx = f_check_atv fuel t ki settle c e ctx.
+Proof. exact finalize_transparent_atv_check. Qed.
+Print Assumptions C09_finalize_transparent_atv_check.
+
+(* ANY function that looks at the tree only through the blocks of the read set (height, pprev, dirty bit, payload
+   ids) returns the same value on the finalized and on the never-finalized tree; one more preserved block than
+   above because such a reader may follow the pprev of the lowest block it reaches, which finalization cuts at the
+   new root (preserve >= settle + 2*ki + 1 above the final block, + 2 with the final block included) *)
+Theorem C09_finalize_transparent_reads :
+  forall fuel t idx preserve tips' fin newRoot,
+  wf_tree t -> chain_is_path t -> root_lowest t -> fuel_ok fuel t ->
+  (idx =? root_of t) = false ->
+  erase_tips fuel t (t_tips t) (lowest_dirty fuel t idx idx) = (tips', fin) ->
+  In fin (t_chain t) ->
+  chain_at t (N.max (height_of t (root_of t)) (height_of t fin - preserve)) = Some newRoot ->
+  forall (A : Type) (f : ftree -> A) (strict : bool) ki settle c e,
+  0 < ki ->
+  settle + 2 * ki + (if strict then 1 else 2) <= preserve ->
+  anc t fin c ->
+  (if strict then height_of t fin < height_of t c else True) ->
+  anc t e c -> height_of t c - height_of t e <= settle ->
+  height_of t (root_of t) < prevks (height_of t e) ki 1 ->
+  reads_only (atv_read_ids t ki c e) f ->
+  f (finalizeBlockImpl fuel t idx preserve) = f t.
+Proof. exact finalize_transparent_reads. Qed.
+Print Assumptions C09_finalize_transparent_reads.
+
+(* getPopPayout(tip) reads the heights tip - (payoutDelay - 1) - difficultyAveragingInterval .. tip: inside the
+   retained window iff payoutDelay - 1 + averagingInterval <= maxReorg + preserve *)
+Theorem C09_payout_reads_within_window :
+  forall delay avg preserve rootH tipH maxReorg h,
+  (0 <= preserve -> maxReorg <= tipH -> delay - 1 + avg <= maxReorg + preserve ->
+   payout_reads delay avg tipH h -> rootH <= h -> retained_low rootH tipH maxReorg preserve <= h)%Z.
+Proof. exact payout_reads_within_window. Qed.
+Print Assumptions C09_payout_reads_within_window.
+
+Theorem C09_payout_bound_tight :
+  forall delay avg maxReorg preserve,
+  (1 <= delay -> 0 <= avg -> 0 <= maxReorg -> 0 <= preserve -> maxReorg + preserve < delay - 1 + avg ->
+   let tipH := delay + avg + maxReorg in
+   let h := tipH - (delay - 1) - avg in
+   maxReorg <= tipH /\ payout_reads delay avg tipH h /\ 0 <= h /\ h < retained_low 0 tipH maxReorg preserve)%Z.
+Proof. exact payout_bound_tight. Qed.
+Print Assumptions C09_payout_bound_tight.
